@@ -193,6 +193,8 @@ impl RollingFileAppender {
         } = builder;
         let directory = directory.as_ref().to_path_buf();
         let now = OffsetDateTime::now_utc();
+        #[cfg(tokio_rs_tracing_verif)]
+        let now = __verif::now().unwrap_or(now);
         let (state, writer) = Inner::new(
             now,
             rotation.clone(),
@@ -211,6 +213,11 @@ impl RollingFileAppender {
 
     #[inline]
     fn now(&self) -> OffsetDateTime {
+        #[cfg(tokio_rs_tracing_verif)]
+        if let Some(now) = __verif::now() {
+            return now;
+        }
+
         #[cfg(test)]
         return (self.now)();
 
@@ -500,6 +507,28 @@ impl Rotation {
             Rotation::NEVER => format_description::parse("[year]-[month]-[day]"),
         }
         .expect("Unable to create a formatter; this is a bug in tracing-appender")
+    }
+}
+
+/// A scripted clock for tests that drive the appender through its public API.
+#[cfg(tokio_rs_tracing_verif)]
+#[doc(hidden)]
+pub mod __verif {
+    use std::sync::atomic::{AtomicI64, Ordering};
+    use time::OffsetDateTime;
+
+    static CLOCK: AtomicI64 = AtomicI64::new(i64::MIN);
+
+    /// Makes every rolling appender read this UNIX time instead of the system clock (`None`: the system clock again).
+    pub fn set_unix_time(secs: Option<i64>) {
+        CLOCK.store(secs.unwrap_or(i64::MIN), Ordering::SeqCst);
+    }
+
+    pub(super) fn now() -> Option<OffsetDateTime> {
+        match CLOCK.load(Ordering::SeqCst) {
+            i64::MIN => None,
+            secs => OffsetDateTime::from_unix_timestamp(secs).ok(),
+        }
     }
 }
 
